@@ -164,7 +164,12 @@ impl<T> Array<T> {
         let data = data.into();
         let shape = shape.into();
 
-        if data.len() == shape.elements() {
+        // The product of an absurd shape may not fit in a usize, in which case it cannot match
+        let elements = shape
+            .iter()
+            .try_fold(1usize, |product, &n| product.checked_mul(n));
+
+        if elements == Some(data.len()) {
             Ok(Array::new_unchecked(data, shape))
         } else {
             Err(ShapeError {
